@@ -3,5 +3,5 @@ EXTENDS UDFProtoTrace
 TrNoFeed == <<>>
 TrNoFaults == {}
 AllTraceFaults == {"endNoBegin", "beginNeg", "pointGap", "unknown", "readerr", "errorResp", "unsolInfo", "unsolInit",
-                   "unsolSnapshot", "unsolRestore", "unsolKeepalive", "close", "die"}
+                   "unsolSnapshot", "unsolRestore", "unsolKeepalive", "close", "die"} \cup ReqFaults
 =============================================================================
